@@ -12,6 +12,7 @@ import multiprocessing
 import os
 import pathlib
 import pickle
+import tempfile
 import threading
 import time
 import typing
@@ -72,6 +73,27 @@ def descriptors() -> list:
             'ab-mixed', appmod.ABTest.compare('beta', '1', 1).over(1, project='alpha', release='2').against(2, release='1')
         ),
     ]
+
+
+_FAR = 3600
+DESCRIPTOR_MODULES = {
+    'exp-a11': "application.Generic('exp-a11', application.Explicit('alpha', '1', 1))",
+    'exp-a21': "application.Generic('exp-a21', application.Explicit('alpha', '2', 1))",
+    'latest-alpha': f"application.Generic('latest-alpha', application.Latest('alpha', refresh={_FAR}))",
+    'latest-alpha-r1': f"application.Generic('latest-alpha-r1', application.Latest('alpha', '1', refresh={_FAR}))",
+    'latest-beta': f"application.Generic('latest-beta', application.Latest('beta', refresh={_FAR}))",
+    'ab-alpha': "application.Generic('ab-alpha', application.ABTest.compare('alpha', '1', 1, 0.5).against(2, target=0.5))",
+    'ab-mixed': "application.Generic('ab-mixed', application.ABTest.compare('beta', '1', 1).over(1, project='alpha', release='2').against(2, release='1'))",
+}
+
+
+def write_inventory(path: str) -> str:
+    """The same seven applications as descriptor modules of a posix inventory (what `forml application put` leaves)."""
+    root = pathlib.Path(path)
+    root.mkdir(parents=True, exist_ok=True)
+    for name, expr in DESCRIPTOR_MODULES.items():
+        (root / f'{name}.py').write_text(f'from forml import application\n\napplication.setup({expr})\n')
+    return str(root)
 
 
 def _build(base: str) -> None:
@@ -256,13 +278,18 @@ SESSIONS: list = []  # every live session of this process (closed by ``close_all
 class Session:
     """One engine + its loop, inventory and process bookkeeping."""
 
-    def __init__(self, registry_path: str, procs: int):
+    def __init__(self, registry_path: str, procs: int, inventory: str = 'memory'):
         allow_children()
         self.procs = procs
         self.before = _children()
         self.mine: set = set()
         self.loop = asyncio.new_event_loop()
-        self.inventory = sa.Inventory(descriptors())
+        if inventory == 'posix':
+            self.invdir = tempfile.mkdtemp(prefix='inventory-', dir=os.environ.get('VERIF_SCRATCH') or None)
+            self.inventory = sa.slow_posix_inventory(write_inventory(self.invdir))
+        else:
+            self.invdir = None
+            self.inventory = sa.Inventory(descriptors())
         self.engine = _service.Engine(
             self.inventory, posix.Registry(registry_path), io.Importer(sa.Feed()), processes=procs
         )
